@@ -36,11 +36,16 @@ lookup liga { sub f a by f_i; sub a b c by d; sub a b by e; } liga;
 lookup chainsub { sub [a b] c' lookup single [d e]; sub e' lookup single a; } chainsub;
 lookup chainpos { pos [c d] a' lookup singlepos1 b; } chainpos;
 lookup rev { rsub [a b] c' [d e] by f; rsub a' by b; } rev;
+# several slots of one rule carrying the SAME glyph set (distinct Coverage objects with equal content)
+lookup chainsame { sub [a b c] [a b c] e' lookup single; sub c' lookup single [b d f] [b d f]; } chainsame;
+lookup ctxsame { sub [a c]' lookup single [a c]' lookup single; } ctxsame;
+lookup chainpossame { pos [b d e] [b d e] a' lookup singlepos1 [c f] [c f]; } chainpossame;
+lookup revsame { rsub [a b d] [a b d] c' [e f] [e f] by f; } revsame;
 lookup filt { lookupflag UseMarkFilteringSet @marks; pos a acute -10; } filt;
-feature kern { lookup singlepos1; lookup singlepos2; lookup pair1; lookup pair2; lookup curs; lookup chainpos; lookup filt; } kern;
+feature kern { lookup singlepos1; lookup singlepos2; lookup pair1; lookup pair2; lookup curs; lookup chainpos; lookup chainpossame; lookup filt; } kern;
 feature mark { lookup mkbase; lookup mklig; } mark;
 feature mkmk { lookup mkmk; } mkmk;
-feature liga { lookup multi; lookup alt; lookup liga; lookup chainsub; lookup rev; } liga;
+feature liga { lookup multi; lookup alt; lookup liga; lookup chainsub; lookup rev; lookup chainsame; lookup ctxsame; lookup revsame; } liga;
 table GDEF {
   GlyphClassDef [a b c d e f], [f_i], [acute grave dot], ;
   LigatureCaretByPos f_i 300;
